@@ -23,6 +23,10 @@ BOUNDS["thorough"] = BOUNDS["quick"]
 ASSUMPTIONS = ["repr(float)/repr(int) round-trip through eval (Python's guarantee)"]
 OPTS = {"quick": {"timeout_ms": 10000}, "thorough": {"timeout_ms": 30000}}
 COLLISIONS = [[-1, -2], [0, 2305843009213693951], [1, 2305843009213693952], [-2, -1]]
+# number spellings whose printed form is easy to get wrong (trailing zeros, exponent notation, long mantissas): tried directly on the real interpreter
+_POOL = [10.0, 20.0, 100.0, 1500.0, 1e+20, 1e-07, 0.1, 1e+16, 123456789012.0, 2.5e-05, 3.0, 1e+22, 0.30000000000000004, 5e-324]
+FORMATS = [[10.0], [1e+20], [1500.0], [1e-07], [0.1], [10.0, 100.0], [1e+22, 2.5e-05], [123456789012.0, 20.0], [100.0, 10.0, 1e+16], [0.30000000000000004, 1e+20, 3.0],
+           [10.0, 20.0, 100.0, 1500.0], [1e-07, 5e-324, 1e+16, 0.1]]
 
 
 def jobs(tier, seed):
@@ -66,7 +70,10 @@ def prepare(spec, ctx):
     sx.HASH_HOOK[0] = lambda s: 0        # python-level hash of a proxy: everything collides, lookups fall through to == (a fork)
 
 
-def true_vc(name, outs, idx, concrete_too=True):
+_FORMATS_DONE = set()
+
+
+def true_vc(name, outs, idx, concrete_too=True, formats=False):
     o = outs[idx]
     res = []
 
@@ -76,9 +83,9 @@ def true_vc(name, outs, idx, concrete_too=True):
     if o["kind"] == "value" and o["value"] is True:
         res.append(VC(name + ":holds-for-all-parameter-values-of-the-path", None, None, {"failed": False}))
         if concrete_too:
-            res.append(VC(name + ":real-number-formatting", z3.BoolVal(True), judge, {"concrete_only": True}))
+            res.append(VC(name + ":real-number-formatting", z3.BoolVal(True), judge, {"concrete_only": True, "candidates": FORMATS if formats else []}))
     else:
-        res.append(VC(name, z3.BoolVal(True), judge, {"symbolic": str(o.get("value", o.get("msg")))[:200]}))
+        res.append(VC(name, z3.BoolVal(True), judge, {"symbolic": str(o.get("value", o.get("msg")))[:200], "candidates": FORMATS}))
     return res
 
 
@@ -111,7 +118,9 @@ def vcs(spec, ctx, outs):
             res.append(VC("str==repr:holds", None, None, {"failed": False}))
         else:
             res.append(VC("str==repr", z3.BoolVal(True), lambda val, couts, k=k: (None if couts[k].get("value") == couts[k + 2].get("value") else "str and repr differ"), {}))
-    res += true_vc("printed-text-evaluates-to-an-equal-object[a]", outs, 5)
+    first = spec.get("id") not in _FORMATS_DONE            # the number spellings are tried once per job (on its first path), not once per path
+    _FORMATS_DONE.add(spec.get("id"))
+    res += true_vc("printed-text-evaluates-to-an-equal-object[a]", outs, 5, formats=first)
     res += true_vc("printed-text-evaluates-to-an-equal-object[b]", outs, 6)
     if outs[7]["kind"] == "value" and outs[7]["value"] == ra["value"]:
         res.append(VC("printing-twice-gives-the-same-text:holds", None, None, {"failed": False}))
